@@ -19,7 +19,7 @@ from ..sym.arr import SymArr, I, dim_term
 class RawBroadcast(Family):
     name = "RaggedShape._raw_broadcast"
     qualname = "npstructures.raggedshape:RaggedShape._raw_broadcast"
-    serves = ["C03", "C04", "C08"]
+    serves = ["C03", "C04", "C05", "C07", "C08"]
     timeout_ms = 60000
     assumed = ["numpy fancy gather / in-place op / fancy assignment `a[idx] ^= v` = gather, xor, last-write-wins scatter (witness form)",
                "ufunc.accumulate(bitwise_xor)", "ndarray.view to the unsigned type of the same size is the identity on bit patterns",
@@ -117,7 +117,7 @@ class BroadcastValues(Family):
     """RaggedShape.broadcast_values / RaggedArray._broadcast_rows: the wrappers around _raw_broadcast"""
     name = "RaggedShape.broadcast_values"
     qualname = "npstructures.raggedshape:RaggedShape.broadcast_values"
-    serves = ["C03", "C04", "C08"]
+    serves = ["C03", "C04", "C05", "C07", "C08"]
     assumed = ["callee contract RaggedShape._raw_broadcast (proved above)"]
 
     def kinds(self):
